@@ -5,7 +5,7 @@
    `pinned` = the tree as found (existing-bridge and routing branches before any credential check).
    Clients, mapping ids, secrets, tunnel ids, connection ids are arbitrary numbers (N): nothing below is bounded.
    The tables regenerated from the code (Gen/C04.v) are tied to the model in Proofs/SideC04.v. *)
-From TX Require Import Base.Threads Model.TunnelOpen Proofs.TunnelOpen Model.TunnelRace Proofs.TunnelRace Proofs.SideC04 Gen.C04.
+From TX Require Import Base.Threads Model.TunnelOpen Proofs.TunnelOpen Model.TunnelRace Proofs.TunnelRace Model.TunnelCross Proofs.TunnelCross Proofs.SideC04 Gen.C04.
 From Coq Require Import List NArith Bool.
 Import ListNotations.
 Open Scope N_scope.
@@ -73,11 +73,12 @@ Print Assumptions C04_refused_gets_no_bytes.
 
 (* (5) the finite table the harness drives through the real SessionManager.HandlePacket — identity (5) x named mapping
    (3) x secret (10: none, right, unrelated, strict prefixes, suffix, right+1, case-flipped, one character changed, another
-   mapping's secret) x resume token (2) x state of the named mapping (5) x tunnel state at arrival (4) = 6000 cells, the
+   mapping's secret) x resume token (2) x state of the named mapping (10: active, revoked, expired an hour / 25 s / 10 s / 2 s / 1 ms ago, expiring in 60 s, inactive, missing)
+   x tunnel state at arrival (4) = 12000 cells, the
    bound being exactly the cell type: on every cell an attachment implies entitlement, and a request that is not
    entitled is refused WITH a failure acknowledgement *)
 Theorem C04_table_all_cells :
-  N.of_nat (length all_cells) = 6000%N /\
+  N.of_nat (length all_cells) = 12000%N /\
   (forall c, In c all_cells -> cell_ok current c = true) /\
   (forall c : cell, attaches (cell_open current c) = true -> cell_entitled c = true) /\
   (forall c : cell, cell_entitled c = false -> cell_open current c = Refuse true).
@@ -177,4 +178,36 @@ Theorem C04_interleaving_witnesses :
     = Some {| b_mid := 1; b_src := Some 1; b_tgt := Some 2 |}.
 Proof. exact fixed_race_witness. Qed.
 Print Assumptions C04_interleaving_witnesses.
+
+(* (8) two nodes — the cluster-wide waiting-tunnel record is what a target arriving on ANOTHER node is checked against before
+   it is forwarded into the bridge (the bridge node compares nothing).  For ANY number of source-side requests on the bridge
+   node and target-side requests on other nodes and ANY schedule of their atomic actions (lookup / bridge-exists check + insert /
+   record write / remote record lookup / forward), in the order startSourceBridge has (insert, THEN record): every attachment,
+   including every forwarded one, was entitled to the mapping of the bridge it ended up in, and the record of a tunnel id always
+   names the mapping of the bridge registered under that id *)
+Theorem C04_cross_node_all_interleavings :
+  forall (d : db) (ths : list xlocal) (sched : list nat),
+    Forall (fun lo => xl_pc lo = XLookup) ths ->
+    let sh := fst (xrun x_head d (xinit ths) sched) in
+    (forall e, In e (x_log sh) -> snd e = true) /\ (forall t m, x_rec sh t = Some m -> xhas sh t m).
+Proof. exact cross_attach_implies_entitled. Qed.
+Print Assumptions C04_cross_node_all_interleavings.
+
+(* writing the record BEFORE the bridge-exists check is refuted: the request that loses the race for a client-chosen tunnel id
+   overwrites the record with its own mapping, and its target client is forwarded from another node into the winner's bridge *)
+Theorem C04_record_before_check_refuted :
+  let sh := fst (xrun x_record_before_check ex_db2 (xinit [xw_L; xw_S; xw_X]) xw_sched) in
+  x_tun sh 9 = Some {| b_mid := 1; b_src := Some 1; b_tgt := Some 3 |} /\ x_rec sh 9 = Some 2 /\ In (3, 9, false) (x_log sh).
+Proof. exact record_before_check_refuted. Qed.
+Print Assumptions C04_record_before_check_refuted.
+
+(* non-vacuity of (8): same schedule in the real order — the loser leaves the record alone and its target is refused, while the
+   winner's own target IS forwarded from the other node and attached *)
+Theorem C04_cross_node_witnesses :
+  (let sh := fst (xrun x_head ex_db2 (xinit [xw_L; xw_S; xw_X]) xw_sched) in
+   x_tun sh 9 = Some {| b_mid := 1; b_src := Some 1; b_tgt := None |} /\ x_rec sh 9 = Some 1 /\ x_log sh = [(1, 9, true)]) /\
+  (let sh := fst (xrun x_head ex_db2 (xinit [xw_L; xw_S; xw_T]) xw_sched) in
+   x_tun sh 9 = Some {| b_mid := 1; b_src := Some 1; b_tgt := Some 3 |} /\ x_log sh = [(3, 9, true); (1, 9, true)]).
+Proof. exact head_cross_witness. Qed.
+Print Assumptions C04_cross_node_witnesses.
 Close Scope N_scope.
